@@ -18,6 +18,10 @@ pub struct Parser<'a> {
     /// This is used in for-loop init expressions where 'in' separates
     /// the variable from the iterable (for x in obj).
     no_in: bool,
+    /// Start offsets of `(` already tried as arrow-function parameters without success.
+    /// Re-parsing the same text (after an enclosing speculative parse was rolled back)
+    /// skips the attempt, which keeps nested parentheses polynomial instead of 2^depth.
+    not_arrow_params_at: FxHashSet<usize>,
 }
 
 impl<'a> Parser<'a> {
@@ -29,6 +33,7 @@ impl<'a> Parser<'a> {
             current,
             previous: Token::eof(0, 1, 1),
             no_in: false,
+            not_arrow_params_at: FxHashSet::default(),
         }
     }
 
@@ -2975,7 +2980,12 @@ impl<'a> Parser<'a> {
         }
 
         // Try to parse as arrow function params (with type annotations)
-        if let Ok(params) = self.try_parse_arrow_params() {
+        if self.not_arrow_params_at.contains(&start.start) {
+            // Already tried here and rolled back: it is a parenthesized expression
+            self.lexer.restore(lexer_checkpoint);
+            self.current = saved_current;
+            self.previous = saved_previous;
+        } else if let Ok(params) = self.try_parse_arrow_params() {
             // Arrow immediately after ) -> definitely arrow function
             if self.check(&TokenKind::Arrow) {
                 return self.parse_arrow_function_from_params(params, start);
@@ -3030,11 +3040,13 @@ impl<'a> Parser<'a> {
             self.lexer.restore(lexer_checkpoint);
             self.current = saved_current;
             self.previous = saved_previous;
+            self.not_arrow_params_at.insert(start.start);
         } else {
             // Failed to parse as params, rollback
             self.lexer.restore(lexer_checkpoint);
             self.current = saved_current;
             self.previous = saved_previous;
+            self.not_arrow_params_at.insert(start.start);
         }
 
         // Parse as parenthesized expression
